@@ -3,6 +3,7 @@ validation, violation replay, evidence files, known findings, exit codes."""
 from __future__ import annotations
 
 import collections
+import logging
 import hashlib
 import importlib
 import json
@@ -17,6 +18,8 @@ from .core import EngineLimit, Inconclusive, PathEnd, SymBool, SymInt, Violation
 
 VERIF = os.path.dirname(os.path.dirname(os.path.abspath(__file__)))
 REPO = os.environ.get("VERIF_REPO", "/repo")
+
+logging.disable(logging.CRITICAL)
 
 EXIT_OK, EXIT_VIOLATION, EXIT_INCONCLUSIVE, EXIT_FAULT = 0, 1, 2, 3
 
@@ -535,9 +538,10 @@ class Check:
             "coverage": cov, "assumptions": self.assumptions, "wall_s": round(wall, 2),
             "violations": len(self.violation_lines),
         }
-        os.makedirs(os.path.join(VERIF, "evidence"), exist_ok=True)
-        with open(os.path.join(VERIF, "evidence", self.prop + ".json"), "w") as f:
-            json.dump(ev, f, indent=1, default=repr)
+        if not os.environ.get("VERIF_NO_EVIDENCE"):  # set only by tools/seedrun.sh (runs against a deliberately broken tree)
+            os.makedirs(os.path.join(VERIF, "evidence"), exist_ok=True)
+            with open(os.path.join(VERIF, "evidence", self.prop + ".json"), "w") as f:
+                json.dump(ev, f, indent=1, default=repr)
         for m in self.messages:
             print(m)
         for l in self.known_lines:
